@@ -324,7 +324,10 @@ def run_terms(case):
     _, terms_t = lt.evaluate(prm_t, bt)
     nz = True
     for k in ("boundary_loss", "initial_condition", "norm_loss", "dyn_loss"):
-        a, b = float(terms_s[k]), float(terms_t[k])
+        if np.asarray(terms_s[k]).size != 1 or np.asarray(terms_t[k]).size != 1:
+            return fail(f"term-{k}-not-scalar", {"spinn_shape": list(np.asarray(terms_s[k]).shape),
+                                                 "twin_shape": list(np.asarray(terms_t[k]).shape)}, labels=labels)
+        a, b = float(np.asarray(terms_s[k]).reshape(-1)[0]), float(np.asarray(terms_t[k]).reshape(-1)[0])
         if not abs(a - b) <= TOL * (1 + abs(b)):
             sub = f":{'neumann' if c['cond'] != 'dirichlet' else 'dirichlet'}" if k == "boundary_loss" else ""
             return fail(f"term-{k}{sub}", {"spinn": a, "pointwise_twin": b, "dim_x": dx, "time": time}, labels=labels)
